@@ -79,6 +79,18 @@ int main(int argc, char** argv) {
       if (_mm256_testc_si256(a, b) != shim_mm256_testc_si256(sa, sb)) FAIL("_mm256_testc_si256");
       if (_mm256_movemask_epi8(a) != shim_mm256_movemask_epi8(sa)) FAIL("_mm256_movemask_epi8");
       __m256i r = _mm256_blendv_epi8(a, b, c); shim__m256i s = shim_mm256_blendv_epi8(sa, sb, sc); CHECK("_mm256_blendv_epi8", r, s, 0);
+      { /* 128/256 conversions and dword blends */
+        __m128i lo = _mm256_castsi256_si128(a); shim__m128i slo = shim_mm256_castsi256_si128(sa); CHECK("_mm256_castsi256_si128", lo, slo, 0);
+        __m128i e1 = _mm256_extracti128_si256(a, 1); shim__m128i se1 = shim_mm256_extracti128_si256(sa, 1); CHECK("_mm256_extracti128_si256/1", e1, se1, 0);
+        __m128i e0 = _mm256_extracti128_si256(a, 0); shim__m128i se0 = shim_mm256_extracti128_si256(sa, 0); CHECK("_mm256_extracti128_si256/0", e0, se0, 0);
+        r = _mm256_inserti128_si256(a, e1, 0); s = shim_mm256_inserti128_si256(sa, se1, 0); CHECK("_mm256_inserti128_si256/0", r, s, 0);
+        r = _mm256_inserti128_si256(b, lo, 1); s = shim_mm256_inserti128_si256(sb, slo, 1); CHECK("_mm256_inserti128_si256/1", r, s, 0);
+        /* the upper half of a 128->256 cast is undefined: only the defined half is compared */
+        __m128i c0 = _mm256_castsi256_si128(_mm256_castsi128_si256(lo)); shim__m128i sc0 = shim_mm256_castsi256_si128(shim_mm256_castsi128_si256(slo)); CHECK("_mm256_castsi128_si256", c0, sc0, 0);
+#define BL(imm) r = _mm256_blend_epi32(a, b, imm); s = shim_mm256_blend_epi32(sa, sb, imm); CHECK("_mm256_blend_epi32/" #imm, r, s, 0);
+        BL(0x00) BL(0xff) BL(0x0f) BL(0xf0) BL(0x55) BL(0xaa) BL(0x3c) BL(0x81)
+#undef BL
+      }
       int sh = (int)(rnd() % 40);
       r = _mm256_srli_epi32(a, sh); s = shim_mm256_srli_epi32(sa, sh); CHECK("_mm256_srli_epi32", r, s, 0);
       r = _mm256_slli_epi32(a, sh); s = shim_mm256_slli_epi32(sa, sh); CHECK("_mm256_slli_epi32", r, s, 0);
